@@ -38,7 +38,9 @@ EXPLANATION = (
     'on, so the cached matrix structure of an earlier call never reaches a later one. (R12.6) the get_* methods of Fluid '
     'and of the FluidProperty classes are pure: no store to an attribute or item of self or of an argument, no '
     "global/nonlocal, no call of a mutating method on self's containers (a cached value would survive a replaced "
-    "property). Not decided: bit-identity of two runs; equality of mode='heat' continuation with 'sequential'.")
+    'property). (R12.7, shared with C05 R5.8 / C06 R6.9) every calculation rebinds every result table; a kept table that '
+    'is reset in place depends on how the frame is stored and so on the history of the net. Not decided: bit-identity of '
+    "two runs; equality of mode='heat' continuation with 'sequential'.")
 ASSUMPTIONS = ["pandas .values / column access may return views (treated as aliases)", "boolean and integer-array indexing copy",
                "transient=False", "components registered at run time by user code are outside the tree"]
 TECHNIQUE = "call-graph reachability, alias/taint analysis with bottom-up mutation summaries, source-order first-access scan, per-class hook summaries"
